@@ -1102,7 +1102,17 @@ func (t *Table) AddCellFormattedText(row, col int, text string, format *TextForm
 	return nil
 }
 
+// cellIsMerged 报告单元格是否已经参与水平合并（gridSpan 大于1）或垂直合并（vMerge）
+func cellIsMerged(cell *TableCell) bool {
+	p := cell.Properties
+	return p != nil && (p.VMerge != nil ||
+		(p.GridSpan != nil && p.GridSpan.Val != "" && p.GridSpan.Val != "1"))
+}
+
 // MergeCellsHorizontal 水平合并单元格（合并列）
+//
+// 范围内不能含有已经合并的单元格：合并后的跨度按物理单元格数计算，
+// 已有的跨度和垂直合并关系会被破坏，需要先调用 UnmergeCells。
 func (t *Table) MergeCellsHorizontal(row, startCol, endCol int) error {
 	if row < 0 || row >= len(t.Rows) {
 		return fmt.Errorf("行索引无效：%d", row)
@@ -1114,6 +1124,12 @@ func (t *Table) MergeCellsHorizontal(row, startCol, endCol int) error {
 
 	if startCol == endCol {
 		return fmt.Errorf("起始列和结束列不能相同")
+	}
+
+	for c := startCol; c <= endCol; c++ {
+		if cellIsMerged(&t.Rows[row].Cells[c]) {
+			return fmt.Errorf("第%d行第%d列已经是合并单元格，请先取消合并", row, c)
+		}
 	}
 
 	// 设置起始单元格的网格跨度
@@ -1197,6 +1213,11 @@ func (t *Table) MergeCellsRange(startRow, endRow, startCol, endCol int) error {
 	for i := startRow; i <= endRow; i++ {
 		if startCol < 0 || startCol > endCol || endCol >= len(t.Rows[i].Cells) {
 			return fmt.Errorf("第%d行列索引范围无效：[%d, %d]", i, startCol, endCol)
+		}
+		for c := startCol; c <= endCol && startCol != endCol; c++ {
+			if cellIsMerged(&t.Rows[i].Cells[c]) {
+				return fmt.Errorf("第%d行第%d列已经是合并单元格，请先取消合并", i, c)
+			}
 		}
 	}
 
